@@ -19,7 +19,7 @@ from warnings import warn
 import unified_planning as up
 from unified_planning.model.expression import ConstantExpression
 from unified_planning.model.htn.method import Method
-from unified_planning.model.htn.task import Task
+from unified_planning.model.htn.task import Task, Subtask
 from unified_planning.model.htn.task_network import TaskNetwork, AbstractTaskNetwork
 from unified_planning.exceptions import UPProblemDefinitionError
 from unified_planning.model.walkers.any import AnyGetter
@@ -113,6 +113,22 @@ class HierarchicalProblem(up.model.problem.Problem):
         new_p._initial_task_network = self._initial_task_network.clone()
         new_p._methods = {n: m.clone() for n, m in self._methods.items()}
         new_p._abstract_tasks = self._abstract_tasks.copy()
+        # the subtasks that run an action must run the action of the new problem,
+        # not the one of this problem
+        for network in [new_p._initial_task_network, *new_p._methods.values()]:
+            network._subtasks = [
+                (
+                    Subtask(
+                        new_p.action(st.task.name),
+                        *st.parameters,
+                        ident=st.identifier,
+                        _env=st._env,
+                    )
+                    if isinstance(st.task, up.model.action.Action)
+                    else st
+                )
+                for st in network._subtasks
+            ]
         return new_p
 
     def _get_static_and_unused_fluents(
